@@ -23,6 +23,7 @@ import (
 	"errors"
 	"io"
 	"os"
+	"reflect"
 	"sort"
 	"strings"
 	"time"
@@ -76,6 +77,11 @@ func verif_assume(b bool) {}
 // body cannot tell two empty windows apart).
 func verif_sameslice[T any](a, b []T) bool {
 	return len(a) == len(b) && (len(a) == 0 || &a[0] == &b[0])
+}
+
+// verif_samemap(a, b): a and b are the same map (contracts only).
+func verif_samemap[M ~map[K]V, K comparable, V any](a, b M) bool {
+	return reflect.ValueOf(a).Pointer() == reflect.ValueOf(b).Pointer()
 }
 
 // verif_rangeidx stands for the number of completed iterations of the enclosing range loop (contracts only).
@@ -171,9 +177,16 @@ var verif_ghost struct {
 	mRenamed     bool      // the temporary file was renamed over the manifest
 	mDirSynced   bool      // the directory was fsynced after the rename
 	mLockHeld    bool      // the manifest file lock is held by this process
-	mSpecsOK     bool      // checkNewSpecsPresent accepted (upstream, contents): every newly named table file is in the directory
-	mSpecsUp     hash.Hash // lock of the upstream contents that check was made against
-	mSpecsNew    hash.Hash // lock of the new contents that check was made for
+
+	// generational presence check (GenerationalNBS.HasMany): the chain of batched queries
+	gHMCount     int             // batched presence queries made so far
+	gHMLast      hash.HashSet    // the absent set the most recent query returned
+	gHMLastEmpty bool            // ... and whether it was empty
+	gHMLastStore *NomsBlockStore // the generation the most recent query was made on
+	gHMGhost     bool            // the ghost generation has been queried
+	mSpecsOK     bool            // checkNewSpecsPresent accepted (upstream, contents): every newly named table file is in the directory
+	mSpecsUp     hash.Hash       // lock of the upstream contents that check was made against
+	mSpecsNew    hash.Hash       // lock of the new contents that check was made for
 
 	// root commit through a manifest (NomsBlockStore.updateManifest / ChunkJournal.Update)
 	uCalled        bool      // manifest.Update was invoked
@@ -186,6 +199,10 @@ var verif_ghost struct {
 	// batched table lookups: the index entry fetched is the one whose suffix just matched
 	tMatched  bool
 	tMatchIdx uint32
+	// completeness of batched lookups is proved for ONE arbitrary request and ONE arbitrary index entry: these two
+	// are never constrained by any contract, so what is proved about them holds for every pair
+	tGK int // an arbitrary request index
+	tGJ int // an arbitrary index entry
 
 	// blobstore-backed manifest (conditional write)
 	crcChecked bool // NewCompressedChunk accepted the bytes (its CRC matched)
@@ -259,6 +276,23 @@ func verif_x_fslock_Unlock(l *fslock.Lock) (err error) { return l.Unlock() }
 
 func verif_x_tableIndex_entrySuffixMatches(ti tableIndex, idx uint32, h *hash.Hash) (m bool, err error) {
 	return ti.entrySuffixMatches(idx, h)
+}
+
+func verif_x_tableIndex_chunkCount(ti tableIndex) (n uint32) { return ti.chunkCount() }
+
+// verif_idxCount / verif_idxSfx: what a table index answers, as (uninterpreted) functions of the index and the
+// question. The index is immutable once built.
+func verif_idxCount(ti tableIndex) uint32 { return ti.chunkCount() }
+func verif_idxSfx(ti tableIndex, idx uint32, h *hash.Hash) bool {
+	m, _ := ti.entrySuffixMatches(idx, h)
+	return m
+}
+
+// verif_hmMatch: index entry tGJ of |tr| holds the address of request tGK of |addrs| (same prefix, same suffix).
+func verif_hmMatch(tr tableReader, addrs []hasRecord) bool {
+	gk, gj := verif_ghost.tGK, verif_ghost.tGJ
+	return 0 <= gk && gk < len(addrs) && 0 <= gj && gj < len(tr.prefixes) &&
+		tr.prefixes[gj] == addrs[gk].prefix && verif_idxSfx(tr.idx, uint32(gj), addrs[gk].a)
 }
 
 func verif_x_tableIndex_indexEntry(ti tableIndex, idx uint32, a *hash.Hash) (entry indexEntry, err error) {
